@@ -548,6 +548,11 @@ def fresh_value(ev, tyid, call, label, depth=0, st=None):
             return Struct([fresh_value(ev, f["ty"], call, "%s.%s" % (label, f["name"]), depth + 1) for f in fs])
         if t["adt_kind"] == "enum":
             d = T.atom("res", 64, (call,), label + ".discr")
+            nv = max(1, len(t["variants"]))
+            if d._rng is None and d._kb is None:
+                # a discriminant is one of the variant indices: tests like `== 1`, `!= 0`, `is_err` coincide for a two-variant enum
+                d._rng = (0, nv - 1)
+                d._kb = (T.mask(64) & ~T.mask((nv - 1).bit_length()), 0)
             pay = {}
             for i, v in enumerate(t["variants"]):
                 pay[i] = tuple(fresh_value(ev, f["ty"], call, "%s.%s.%s" % (label, v["name"], f["name"]), depth + 1) for f in v["fields"])
